@@ -147,7 +147,9 @@ def rule_r2(rep, program: Program):
         if not ok:
             r.violate(PROP, f"LogRepFloat.{name}:expr={norm(found)}", f"log-space result `{norm(found)}` is not the image of the operator ({'log a + log b' if what is ast.Add else 'log a - log b' if what is ast.Sub else what + '(log a, log b)'})", node=found, file=f.file)
         if name == "__sub__":
-            if guard is None or norm(guard) not in (f"{a} >= {b}", f"{b} <= {a}", f"{a} > {b}", f"{b} < {a}"):
+            if guard is not None and norm(guard) in (f"{a} > {b}", f"{b} < {a}"):
+                r.violate(PROP, f"LogRepFloat.__sub__:guard-strict={norm(guard)}", "the log-space branch excludes equal operands: the difference of two equal weights falls through to the linear values, and for log values above ~709.78 that is inf - inf = NaN (the property requires differences of equal values without NaN)", node=guard, file=f.file)
+            elif guard is None or norm(guard) not in (f"{a} >= {b}", f"{b} <= {a}"):
                 r.violate(PROP, f"LogRepFloat.__sub__:guard={norm(guard) if guard is not None else None}", "log_diff_exp is not guarded by self >= other (a negative difference has no log representation)", node=ifnode, file=f.file)
     # __iadd__ with a plain number: log(other) must be guarded against other == 0
     f = k.methods["__iadd__"]
